@@ -1,5 +1,15 @@
 //! C20: mediasan_common::util::checked_add_signed for every instantiated width.
+#[path = "common.rs"]
+mod common;
 use mediasan_common::util::checked_add_signed;
+
+fn main() {
+    common::main_loop(|kind, args| match kind {
+        "add" => run(args),
+        "addsweep" => sweep(args),
+        _ => format!("unknown-kind {kind}"),
+    });
+}
 
 fn fmt<T: std::fmt::Display>(r: Option<T>) -> String {
     match r {
